@@ -11,6 +11,7 @@ THEOREMS = [
     "Cspuz.C15.C15_roundtrip",
     "Cspuz.C15.C15_seq_terminates",
     "Cspuz.C15.C15_borders_roundtrip",
+    "Cspuz.C15.C15_rooms",
     "Cspuz.C15.C15_puzzles_wf",
 ]
 
